@@ -1153,7 +1153,7 @@ class Epoch(object):
             x += 1
 
         # Check if date is in Gregorian calendar. '277' is DOY of October 4th
-        if (x > 1583) or (x == 1582 and j > 277):
+        if (x > 1582) or (x == 1582 and j > 277):
             jd = iint(365.25 * (x - 1.0)) + 1721423 + j
             alpha = iint((jd - 1867216.25) / 36524.25)
             beta = jd if jd < 2299161 else (jd + 1 + alpha - iint(alpha / 4.0))
